@@ -136,3 +136,12 @@ package fingerprint
 //@   loop 1 invariant forall k {genOK(t, k)} :: 0 <= k && k < $i ==> t.Generates[k].Negate || genOK(t, k)            [C05]
 //@   ensures result.0 && result.1 == nil ==>
 //@           forall k {genOK(t, k)} :: 0 <= k && k < len(t.Generates) ==> t.Generates[k].Negate || genOK(t, k)       [C05]
+
+// ---- C04 / C05: a pattern is "present" only if every path it expands to exists: a path that cannot be stat'ed
+// makes the expansion fail (the generates check of the checksum method relies on that error)
+//@ ghost var statFailed bool scratch
+//@ func glob
+//@   init statFailed := false
+//@   site os.Stat#1 ghost statFailed := result.1 != nil
+//@   loop 1 invariant !statFailed
+//@   ensures statFailed ==> result.1 != nil                                                          [C04,C05]
